@@ -91,6 +91,14 @@ def arg_sem(g, n, scope, depth=0):
             return "word"
         body = single_body(fb)
         if body is not None and body["t"] == "ref":
+            r = arg_sem(g, body, scope, depth + 1)
+            if n["fn"].startswith("<") and not body["fn"].startswith("<") and r == type_of_key(body["fn"], body.get("targs")):
+                # `impl Parseable for u32 { parse = unsigned::<u32> }`: nothing more specific was learned from the generic
+                # helper, the meaning is "the parser of this type"
+                return type_of_key(n["fn"], n.get("targs"))
+            return r
+        if body is not None and body["t"] in ("andthen", "seq") and not n["fn"].startswith("<"):
+            # a free helper function that only names a composite argument parser is described by its body
             return arg_sem(g, body, scope, depth + 1)
         cs = comparison_shape(g, fb, scope)
         if cs is not None and set(cs["table"]) == {"+", "-", ""}:
